@@ -309,7 +309,9 @@ func (p *parseVisitor) VisitMonetary(c *parser2.SendContext, mon parser2.IExpres
 		if _, _, err := p.VisitExpr(mon, true); err != nil {
 			return err
 		}
-		p.VisitAllotment(c.SourceAllotment(), c.SourceAllotment().GetPortions())
+		if compErr := p.VisitAllotment(c.SourceAllotment(), c.SourceAllotment().GetPortions()); compErr != nil {
+			return compErr
+		}
 		p.AppendInstruction(program2.OP_ALLOC)
 
 		sources := c.SourceAllotment().GetSources()
